@@ -53,6 +53,7 @@ type ecase struct {
 	MapLimit uint64     `json:"maplimit"`
 	MapOff   uint64     `json:"mapoff"`
 	Addrs    []addrCase `json:"addrs"`
+	Seg      int        `json:"seg"` // 1-based index of the segment the mapping belongs to
 	Table    []sym      `json:"table"`
 	Queries  []query    `json:"queries"`
 }
@@ -152,9 +153,9 @@ func elfCase(raw json.RawMessage, c *ecase, idx int) {
 		phdrs = append(phdrs, elf.ProgHeader{Type: elf.PT_LOAD, Flags: fl, Off: s.Off, Vaddr: s.Vaddr, Filesz: s.Filesz, Memsz: s.Memsz})
 	}
 	// the formula proved for unbounded integers in ElfBase.tla (Apalache) is the one the code evaluates:
-	// GetBase with the owning (executable) segment must return the load bias exactly
+	// GetBase with the owning segment must return the load bias exactly
 	for k, s := range c.Layout {
-		if !s.X {
+		if k != c.Seg-1 {
 			continue
 		}
 		typ := elf.ET_EXEC
@@ -172,12 +173,12 @@ func elfCase(raw json.RawMessage, c *ecase, idx int) {
 	hs := elfexec.ProgramHeadersForMapping(phdrs, c.MapOff, c.MapLimit-c.MapStart)
 	found := false
 	for _, h := range hs {
-		if h.Flags&elf.PF_X != 0 {
+		if c.Seg >= 1 && c.Seg <= len(phdrs) && h.Off == phdrs[c.Seg-1].Off && h.Vaddr == phdrs[c.Seg-1].Vaddr {
 			found = true
 		}
 	}
 	if !found {
-		run.Violate("elf", sigOf(c, "exec-segment-not-a-candidate"), fmt.Sprintf("ProgramHeadersForMapping(off=%#x, size=%#x) does not offer the executable segment", c.MapOff, c.MapLimit-c.MapStart), raw, nil)
+		run.Violate("elf", sigOf(c, "owning-segment-not-a-candidate"), fmt.Sprintf("ProgramHeadersForMapping(off=%#x, size=%#x) does not offer the segment the mapping belongs to (%d)", c.MapOff, c.MapLimit-c.MapStart, c.Seg), raw, nil)
 	}
 }
 
@@ -195,6 +196,14 @@ func nmCase(raw json.RawMessage, c *ecase, idx int, nmDir string) {
 	}
 	defer os.Remove(path)
 	var tb bytes.Buffer
+	// every other case: a small function below all others that has the SAME NAME as the last symbol of the table
+	// (file-local functions of different compilation units): symbols are told apart by address, not by name
+	homonym := ""
+	if idx%2 == 1 && len(c.Table) > 0 {
+		last := len(c.Table) - 1
+		homonym = fmt.Sprintf("sym%d_%x", last, c.Table[last].A)
+		fmt.Fprintf(&tb, "%s T %x %x\n", homonym, 4, 4)
+	}
 	for i, s := range c.Table {
 		t := "T"
 		if s.Data {
@@ -239,7 +248,7 @@ func nmCase(raw json.RawMessage, c *ecase, idx int, nmDir string) {
 		// that does not contain q; nothing if no symbol starts at or below q
 		ok := false
 		if q.Best == 0 && len(c.Table) > 0 && q.Q < c.Table[0].A {
-			ok = got == ""
+			ok = got == "" || (homonym != "" && q.Q >= 4 && got == homonym)
 		} else {
 			for i, s := range c.Table {
 				if s.A != q.Best {
